@@ -112,7 +112,7 @@ def inline_image(t: Term, record: bool = True):
                 if wit:
                     res = ("bad", (clash + " ; " if clash else "") + wit)
                 elif clash:
-                    res = ("bad", clash)
+                    res = ("unknown", "frame-type clash without a numeric witness: " + clash)
                 else:
                     res = ("unknown", "inline minimum image not reducible to R - (m (.) nearest(R H^-1)) H and no differing cell found")
     except Exception as e:  # noqa
